@@ -55,6 +55,8 @@ func (g *Plugin) OnPodUpdate(oldObj, newObj interface{}) {
 	oldQuotaName, oldTree := g.getPodAssociateQuotaNameAndTreeID(oldPod)
 	newQuotaName, newTree := g.getPodAssociateQuotaNameAndTreeID(newPod)
 
+	g.migratePodFromDefaultQuota(oldPod, oldQuotaName, g.GetGroupQuotaManagerForTree(oldTree))
+
 	if oldTree == newTree {
 		mgr := g.GetGroupQuotaManagerForTree(newTree)
 		if mgr != nil {
@@ -122,6 +124,7 @@ func (g *Plugin) handlePodDelete(pod *corev1.Pod) {
 
 	mgr := g.GetGroupQuotaManagerForTree(treeID)
 	if mgr != nil {
+		g.migratePodFromDefaultQuota(pod, quotaName, mgr)
 		mgr.OnPodDelete(quotaName, pod)
 		klog.V(5).Infof("OnPodDeleteFunc %v delete success, quota: %v, tree: %v", klog.KObj(pod), quotaName, treeID)
 	} else {
